@@ -125,6 +125,13 @@ def rule_open(m):
                     why = 'the stream is opened on `%s`, a name computed from the caller\'s file name and not that name itself: ' \
                           'calls with distinct file names can end up writing the same file, and an observer of the documented ' \
                           'target sees it appear by another route' % show(path, f.unit)[:80]
+            reg0 = f.region(decl['i'])
+            if reg0 and not why:
+                dep0 = sorted(reg0)[0]
+                a0 = f.branch_atom(dep0[0])
+                why = 'the stream is opened only when `%s` is %s: on the other paths the routine returns without creating / ' \
+                      'truncating the file and without reporting a path that cannot be opened' % (
+                          f.expr_text(a0)[:50] if a0 is not None else '?', 'true' if dep0[1] == 0 else 'false')
             fsys = [n for n in f.nodes if n['k'] == 'CallExpr' and 'callee' in n and
                     f.unit.decl(n['callee'])['tname'] in ('rename', 'remove', 'std::rename', 'std::remove', 'tmpnam', 'std::tmpnam',
                                                          'tmpfile', 'std::tmpfile', 'mkstemp', 'unlink') and
@@ -1844,6 +1851,28 @@ def rule_tokeniser_access(m):
                     else:
                         res.fail(Finding('F-IO.TOK', f.display(), 'raw string subscript', f.nloc(n['i']),
                                          'raw subscript `%s` on a string with a computed position' % f.expr_text(n['i'])))
+            if n['k'] == 'CXXOperatorCallExpr' and 'callee' in n:
+                cd = f.unit.decl(n['callee'])
+                if cd.get('op') == '[]' and cd.get('record') == 'std::array':
+                    # a computed subscript of a fixed-size array is below its size on the controlling edges
+                    idx = strip_cast(tt.t(n['args'][1]))
+                    while idx[0] == 'un' and idx[1] in ('++', '--') and len(idx) > 3:
+                        idx = strip_cast(idx[3])
+                    if idx[0] != 'int':
+                        res.sites += 1
+                        from .rules_pair import region_atoms as _ra
+                        bounded = False
+                        for at in _ra(f, tt, n['i']):
+                            if at[0] == 'bin' and at[1] in ('<', '<=', '!=') and strip_cast(at[2]) == idx and \
+                                    (strip_cast(at[3])[0] == 'int' or (strip_cast(at[3])[0] == 'mcall' and strip_cast(at[3])[1].endswith('::size'))):
+                                bounded = True
+                        if bounded:
+                            res.ok(dict(function=f.display(), access=f.expr_text(n['i'])[:40], bounded=True), fn=f.display())
+                        else:
+                            res.fail(Finding('F-IO.TOK', f.display(), 'array subscript', f.nloc(n['i']),
+                                             '`%s` stores into a fixed-size array at a position computed from the line, with no test '
+                                             'of that position against the size of the array on the way: a line with more fields than '
+                                             'the array has elements writes past its end' % f.expr_text(n['i'])[:50]))
             if n['k'] == 'CXXMemberCallExpr' and 'callee' in n:
                 cd = f.unit.decl(n['callee'])
                 if cd.get('record') == 'std::basic_string' and cd['name'] in ('substr', 'at'):
